@@ -108,7 +108,12 @@ func TestCheck(t *testing.T) {
 		"certainly-unsatisfying must be rejected by Validate and PEXConsumer, satisfying-and-alone must be accepted). " +
 		"After all cases a real discovery.Module (SQL store, Register, Search; only the signature verifier is faked) serves one Discovery Service per case whose selection forces the mapping of a registration " +
 		"(reference matrix: every registered credential satisfies exactly its own descriptor and no other descriptor is satisfied): the selected credentials are registered by several holders, each listing them in another order " +
-		"(descriptor order, reversed, rotated, shuffled), and the named fields Search reports (no query, query on the subject, query on one credential id) must equal what the reference reads in the credential mapped to the field's descriptor. Non-trivial: >=1 input descriptor and >=1 wallet credential; distinct by (definition structure fingerprint, wallet class, outcome).")
+		"(descriptor order, reversed, rotated, shuffled), and the named fields Search reports (no query, query on the subject, query on one credential id) must equal what the reference reads in the credential mapped to the field's descriptor. " +
+		"A third batch is built around requirement TREES: 2-4 groups of 1-3 descriptors (a discriminating claim per descriptor most of the time), requirements over from_nested (depth 2 and 3, next to plain requirements, rarely with overlapping groups) " +
+		"with all / pick count, min, max, min+max, count+min, count+max at the nested level (bounds mostly >= 2, also above the number of nested requirements) and all / pick count, min, min+max, max, nothing at the group level, " +
+		"and several wallets per tree steered per group (complete, one descriptor short, nothing) so that more, exactly as many and fewer nested requirements are satisfiable than asked for; " +
+		"for trees without overlap and without a nested requirement that the empty selection satisfies the reference decides completeness (a selection exists iff everything matchable satisfies the at-least side; cross-checked by enumeration with the at-most side at every level) " +
+		"and the at-most side of the wallet's selection at every level (number of satisfied nested requirements vs count/max), next to the at-least side and the wallet/verifier agreement that are judged for every tree. Non-trivial: >=1 input descriptor and >=1 wallet credential; distinct by (definition structure fingerprint, wallet class, outcome).")
 	r.Require(r.Pick(600, 6000), r.Pick(300, 3000))
 	r.Assume("credential JSON view per securing format as used by the repo's own fixtures (vcr/pe/test as_jsonld / as_jwt): JSON-LD credentials in compact form (single type / credentialSubject unwrapped), JWT credentials in expanded form (type and credentialSubject are arrays, registered claims mapped back); claims live in credentialSubject or the standard top-level properties")
 	r.Assume("JSONPath forms limited to $ .name [\"name\"] [n]; single-quoted bracket notation is not generated (the third-party jsonpath library only parses single-character single-quoted names)")
@@ -117,7 +122,7 @@ func TestCheck(t *testing.T) {
 
 	silenceAuditLog(t)
 	pairs := r.Pick(900, 10000)
-	cases, genStats := generate(r, pairs, r.Pick(160, 1600))
+	cases, genStats := generate(r, pairs, r.Pick(160, 1600), r.Pick(300, 3000))
 	for k, v := range genStats {
 		r.Count(k, v)
 	}
@@ -148,6 +153,12 @@ func TestCheck(t *testing.T) {
 		r.Fatalf("monitor observed too little on filters without type / verifier probes: filters=%d kinds=%d refuted=%d undecided=%d probes rejected=%d accepted=%d on-typeless=%d", r.Get("filters_without_type"),
 			r.DistinctN("filters_without_type_kinds"), r.Get("pairs_refuted_by_filter_without_type"), r.Get("pairs_undecided_on_filter_without_type"),
 			r.Get("verifier_probes_unsatisfying_rejected"), r.Get("verifier_probes_satisfying_accepted"), r.Get("verifier_probes_on_filter_without_type"))
+	}
+	if r.Get("nested_pick_bound_ge2_satisfiable_with_multi_credential_child") < 20 || r.Get("nested_pick_bound_ge2_more_satisfiable_than_asked") < 10 || r.Get("nested_pick_bound_ge2_fewer_satisfiable_than_asked") < 10 ||
+		r.Get("completeness_decided_nesting") < 50 || r.Get("requirement_tree_selections_checked") < 30 || r.DistinctN("requirement_tree_shapes") < 25 {
+		r.Fatalf("monitor observed too little on requirement trees: pick>=2 over nested requirements satisfiable with a multi-credential child=%d, more satisfiable than asked=%d, fewer=%d, completeness decided=%d, selections checked=%d, tree shapes=%d",
+			r.Get("nested_pick_bound_ge2_satisfiable_with_multi_credential_child"), r.Get("nested_pick_bound_ge2_more_satisfiable_than_asked"), r.Get("nested_pick_bound_ge2_fewer_satisfiable_than_asked"),
+			r.Get("completeness_decided_nesting"), r.Get("requirement_tree_selections_checked"), r.DistinctN("requirement_tree_shapes"))
 	}
 	if r.Get("twin_forged_evaluated") == 0 || r.Get("twin_baseline_accepted") == 0 || r.Get("twin_forged_resolves_to_twin") == 0 {
 		r.Fatalf("monitor observed too little on id-colliding envelopes: forged=%d baseline_accepted=%d forged_resolves_to_twin=%d", r.Get("twin_forged_evaluated"),
@@ -184,12 +195,16 @@ func flush(r *ev.Run, o *caseOut, name string, sample bool) {
 // The main batch comes from the stream "gen"; a second batch (edgePairs cases, stream "gen-edge") comes from the same
 // generator in filter-vocabulary edge mode (gen.edge), appended behind the main batch so that the main cases are the
 // same with and without it.
-func generate(r *ev.Run, pairs, edgePairs int) ([]*caseIn, map[string]int) {
+// A third batch (nestedPairs cases, stream "gen-nested") comes from the generator in requirement-tree mode
+// (gennested_test.go), again appended behind the others.
+func generate(r *ev.Run, pairs, edgePairs, nestedPairs int) ([]*caseIn, map[string]int) {
 	stats := map[string]int{}
 	var cases []*caseIn
 	generateBatch(r, &gen{rnd: r.Rand("gen")}, pairs, &cases, stats)
 	generateBatch(r, &gen{rnd: r.Rand("gen-edge"), n: 1000000, edge: 0.4}, pairs+edgePairs, &cases, stats)
 	stats["pairs_filter_vocabulary_edge_batch"] = edgePairs
+	generateBatch(r, &gen{rnd: r.Rand("gen-nested"), n: 2000000, nest: true}, pairs+edgePairs+nestedPairs, &cases, stats)
+	stats["pairs_requirement_tree_batch"] = nestedPairs
 	return cases, stats
 }
 
@@ -263,6 +278,14 @@ func generateBatch(r *ev.Run, g *gen, pairs int, into *[]*caseIn, stats map[stri
 			stats["definitions_with_pick_without_count_and_max"]++
 		}
 		nW := 1 + g.weighted(5, 4, 1)
+		if g.nest {
+			nW = 2 + g.weighted(3, 4, 2) // several wallets per tree: more / exactly / fewer satisfiable nested requirements than asked for
+			for _, q := range rd.Reqs {
+				if len(q.Nested) > 0 {
+					r.Distinct("requirement_tree_shapes", refShape(q))
+				}
+			}
+		}
 		for k := 0; k < nW && len(cases) < pairs; k++ {
 			cases = append(cases, &caseIn{idx: len(cases), ds: ds, raw: raw, pd: pd, rd: rd, w: g.wallet(ds), stream: fmt.Sprintf("case-%d", len(cases))})
 		}
@@ -469,6 +492,10 @@ func evaluate(r *ev.Run, in *caseIn) (out *caseOut) {
 			out.unspecified("contradictory-bounds")
 		} else if caseUnspec == "" {
 			lower, upper := rd.treeOK(selIDs)
+			deep := !nesting || rd.upperDeep(selIDs)
+			if nesting {
+				out.count("requirement_tree_selections_checked", 1)
+			}
 			if !lower {
 				cls := "descriptors"
 				if len(rd.Reqs) > 0 {
@@ -478,10 +505,17 @@ func evaluate(r *ev.Run, in *caseIn) (out *caseOut) {
 					}
 				}
 				out.find("C12/soundness/requirement-tree/"+cls, "the submission does not satisfy the definition's requirements (at-least side): selected "+strings.Join(keys(selIDs), ","), defWitness())
-			} else if !upper {
-				if overlap || nesting {
+			} else if !upper || !deep {
+				switch {
+				case overlap:
 					out.unspecified("upper-bound-exceeded-with-overlapping-groups-or-nesting")
-				} else {
+				case nesting && rd.vacuousBelowNesting():
+					out.unspecified("upper-bound-exceeded-with-nested-requirement-satisfied-by-empty-selection")
+				case nesting && fitsSeveral(rd, selPairs, peSat):
+					out.unspecified("upper-bound-exceeded-with-nesting-and-credential-that-fits-several-descriptors")
+				case nesting:
+					out.find("C12/soundness/requirement-tree/upper-bound-nested", "the submission satisfies more nested requirements (or holds more descriptors of a group) than count/max of the requirement tree allow: selected "+strings.Join(keys(selIDs), ","), defWitness())
+				default:
 					out.find("C12/soundness/requirement-tree/upper-bound", "the submission holds more descriptors of a group than count/max allow: selected "+strings.Join(keys(selIDs), ","), defWitness())
 				}
 			}
@@ -493,12 +527,36 @@ func evaluate(r *ev.Run, in *caseIn) (out *caseOut) {
 	}
 
 	// --- completeness (definitions without nesting)
-	decidedExists, exists := false, false
+	decidedExists, exists, nestedDecided := false, false, false
+	if nesting && caseUnspec == "" && !contradictory {
+		tc := rd.treeClass(matchable)
+		out.count("nested_pick_requirements", tc.nestedPick)
+		out.count("nested_pick_bound_ge2", tc.boundGE2)
+		out.count("nested_pick_bound_ge2_enough_satisfiable", tc.satisfiable)
+		out.count("nested_pick_bound_ge2_more_satisfiable_than_asked", tc.surplus)
+		out.count("nested_pick_bound_ge2_fewer_satisfiable_than_asked", tc.short)
+		out.count("nested_pick_bound_ge2_child_with_several_credentials", tc.multi)
+		out.count("nested_pick_bound_ge2_satisfiable_with_multi_credential_child", tc.target)
+	}
 	switch {
 	case caseUnspec != "":
 	case contradictory:
-	case nesting:
+	case nesting && (ungrouped || unreferenced || overlap):
 		out.count("completeness_skipped_nesting", 1)
+	case nesting && rd.vacuousBelowNesting():
+		out.count("completeness_skipped_nesting", 1)
+		out.unspecified("nested-requirement-satisfied-by-empty-selection")
+	case nesting:
+		// every group referenced once, every descriptor in one group, no nested requirement that selecting nothing
+		// satisfies: a complete selection exists iff selecting everything matchable satisfies the at-least side of the tree
+		nestedDecided = true
+		strict, lax := rd.existsTree(matchable)
+		if strict != lax {
+			out.unspecified("upper-bounds-conflict-in-requirement-tree")
+		} else {
+			decidedExists, exists = true, lax
+			out.count("completeness_decided_nesting", 1)
+		}
 	case ungrouped:
 		out.unspecified("ungrouped-descriptor-with-submission-requirements")
 	case unreferenced:
@@ -557,7 +615,7 @@ func evaluate(r *ev.Run, in *caseIn) (out *caseOut) {
 		if buildErr != nil && (len(sub.DescriptorMap) != 0 || !sign.Empty()) {
 			out.find("C12/completeness/partial-output-with-error", "Build returned an error together with a (partial) submission", defWitness())
 		}
-		forgedFromNothing(out, in, rnd, sat, caseUnspec != "")
+		forgedFromNothing(out, in, rnd, sat, caseUnspec != "" || (nesting && !nestedDecided))
 		return
 	}
 	if buildErr != nil {
@@ -1234,7 +1292,7 @@ func pexConsumer(out *caseOut, in *caseIn, envs []*envModel, parsed []*pe.Envelo
 
 func forgedFromNothing(out *caseOut, in *caseIn, rnd *rand.Rand, sat map[string]map[string]bool, skip bool) {
 	w, rd := in.w, in.rd
-	if skip || len(w.creds) == 0 || len(rd.Descs) == 0 || rd.hasNesting() {
+	if skip || len(w.creds) == 0 || len(rd.Descs) == 0 { // skip: includes requirement trees the reference does not decide
 		return
 	}
 	g := &gen{rnd: rnd}
